@@ -2,8 +2,8 @@
 //! and the value family's reference model (what a spec's tag must produce).
 use serde::{Deserialize, Serialize};
 
-pub const TY_NAMES: [&str; 13] = ["()", "u8", "u64", "[u8;3]", "[u8;24]", "[u64;512]", "align64", "align4096", "Vec<u8>", "bool", "char", "Option<u8>", "fieldless-enum"];
-pub const NTY: u8 = 13;
+pub const TY_NAMES: [&str; 14] = ["()", "u8", "u64", "[u8;3]", "[u8;24]", "[u64;512]", "align64", "align4096", "Vec<u8>", "bool", "char", "Option<u8>", "fieldless-enum", "align16"];
+pub const NTY: u8 = 14;
 pub const TY_VEC: u8 = 8;
 
 pub const DISP_JOIN: u8 = 0;
@@ -71,6 +71,10 @@ pub struct Spec {
     /// (`eprintln!("{:?}", handle.join())`)
     #[serde(default)]
     pub join_in_print: bool,
+    /// the closure itself spawns a thread and 1 = joins it, 2 = drops its handle once it has finished: the
+    /// handle side of a thread's life runs on a spawned thread
+    #[serde(default)]
+    pub nested: u8,
 }
 
 impl Spec {
@@ -88,7 +92,7 @@ pub fn encode_batch(b: &Batch) -> Vec<u8> {
     let mut pl = vec![1u8, b.specs.len() as u8, 0, 0];
     for s in &b.specs {
         pl.push(s.ty);
-        pl.push(if s.spurious && !s.panic { 2 } else { s.panic as u8 });
+        pl.push(if s.spurious && !s.panic { 2 } else if s.panic { 1 } else if s.nested == 1 { 3 } else if s.nested == 2 { 4 } else { 0 });
         pl.push(s.disp);
         pl.push(s.inline as u8);
         pl.push(s.child_delay.kind());
@@ -147,6 +151,7 @@ pub fn value_len(ty: u8, tag: u64) -> usize {
         10 => 4,
         11 => 2,
         12 => 1,
+        13 => 112,
         _ => (splitmix(tag ^ 0x0abc) % 301) as usize,
     }
 }
